@@ -874,6 +874,7 @@ void hx_parse(int argc, char **argv, hx_args *a)
 		else if (!strcmp(k, "--cases")) { a->cases = strtoull(v, NULL, 0); ++i; }
 		else if (!strcmp(k, "--start")) { a->start = strtoull(v, NULL, 0); ++i; }
 		else if (!strcmp(k, "--only")) { a->only = strtoll(v, NULL, 0); ++i; }
+		else if (!strcmp(k, "--skip")) { if (a->nskip < 64) a->skip[a->nskip++] = strtoull(v, NULL, 0); ++i; }
 		else if (!strcmp(k, "--thorough")) { a->thorough = 1; }
 		else if (!strcmp(k, "--mode")) { a->mode = v; ++i; }
 		else if (!strcmp(k, "--prop")) { a->prop = v; ++i; }
@@ -906,6 +907,10 @@ bool hx_next_case(const hx_args *a, uint64_t *idx)
 		next = a->shard;
 		while (next < a->start) next += a->nshards;
 	} else next = *idx + a->nshards;
+	for (bool again = true; again; ) {
+		again = false;
+		for (unsigned k = 0; k < a->nskip; ++k) if (a->skip[k] == next) { next += a->nshards; again = true; }
+	}
 	if (next >= a->cases) return false;
 	*idx = next;
 	return true;
@@ -936,6 +941,7 @@ void hx_set_case_watchdog(unsigned seconds)
 }
 
 static double last_stats_emit;
+static uint64_t stats_upto;
 static void emit_stats(bool final);
 
 void hx_case_begin(uint64_t idx)
@@ -944,7 +950,7 @@ void hx_case_begin(uint64_t idx)
 	{
 		double now = wall_now();
 		if (last_stats_emit == 0) last_stats_emit = now;
-		else if (now - last_stats_emit > 8.0) { last_stats_emit = now; if (hashfile) fflush(hashfile); emit_stats(false); }
+		else if (now - last_stats_emit > 4.0) { last_stats_emit = now; if (hashfile) fflush(hashfile); stats_upto = idx; emit_stats(false); }
 	}
 	if (case_watchdog_s) alarm(case_watchdog_s);
 	case_prev = idx; case_t0 = wall_now();
@@ -1031,9 +1037,10 @@ void visits_reset(void)
 // The stats line is cumulative. Besides the final one (hx_finish) a provisional one ("final":0) is written between
 // cases every few seconds, so that a process that is killed later (sanitizer abort, case watchdog on a loaded
 // machine) does not take the counters of the cases it had completed with it; the driver uses the last line only.
+// stats_upto in provisional lines: the case about to begin (every earlier case of this process is counted)
 static void emit_stats(bool final)
 {
-	fprintf(stdout, "{\"t\":\"stats\",\"final\":%d,\"evaluations\":%" PRIu64 ",\"distinct_nontrivial\":%zu,\"violations\":%" PRIu64 ",\"counters\":{", final ? 1 : 0, n_eval, dnt, n_viol);
+	fprintf(stdout, "{\"t\":\"stats\",\"final\":%d,\"upto\":%" PRIu64 ",\"evaluations\":%" PRIu64 ",\"distinct_nontrivial\":%zu,\"violations\":%" PRIu64 ",\"counters\":{", final ? 1 : 0, stats_upto, n_eval, dnt, n_viol);
 	for (size_t i = 0; i < ncounters; ++i) {
 		if (i) fputc(',', stdout);
 		json_str(stdout, counters[i].name);
